@@ -79,6 +79,10 @@ def constructs(seed=0):
                                       D.method(single(T('std::map', t=[T('int'), T(V, t=[T('ns::Pose', 0, '*')])])), 'mp',
                                                [arg(T('std::map', 1, '&', [T('string'), T('double')]), 'm')])]),
                          D.func(single(T(V, t=[T(V, t=[T('double')])])), 'nestedFn', [arg(T(V, t=[T(V, t=[T('int')])]), 'x')])]
+    c['templated_markers'] = [D.cls('Tm', [D.method(single(T('void')), 'raw', [arg(T(V, 0, '@', [T('int')]), 'v'), arg(T(V, 1, '@', [T('double')]), 'cv')]),
+                                           D.method(single(T('int')), 'refs', [arg(T(V, 1, '&', [T('ns::Pose')]), 'a'), arg(T('std::map', 0, '@', [T('int'), T('double')]), 'm')], 1),
+                                           D.static(single(T('void')), 'sraw', [arg(T(V, 0, '@', [T(V, t=[T('int')])]), 'vv')])]),
+                              D.func(single(T('void')), 'rawFn', [arg(T(V, 0, '@', [T('int')]), 'v')])]
     c['nested_tparam'] = [D.cls('Np', [D.method(single(T('void')), 'deep', [arg(T(V, t=[T(V, t=[T('T')])]), 'x')])],
                                 tpl=[D.tparam('T', [T('double')])])]
     c['tfunc'] = [D.func(single(T('T')), 'tf', [arg(T('T', 1, '&'), 'a'), arg(T('int'), 'k', '2')],
